@@ -402,6 +402,9 @@ pub fn run(ctx: &Ctx) -> i32 {
     if acc.stats.get("checkpoints_compared") == 0 {
         acc.inconclusive.push("no checkpoint was compared".into());
     }
+    if !ctx.quick() {
+        acc.asan(&["c15"]);
+    }
     acc.finish(
         "exploration",
         "protocol-valid histories over a 4-file workspace (main importing two modules, one unrelated file; text variants valid and with lexical/syntax/type/resolution errors, multi-byte characters, CRLF): didOpen with disk or unsaved text, didChange with 1-3 full or incremental changes at arbitrary valid UTF-16 ranges (end-of-file insertions, multi-byte and CRLF snippets), didClose, requests, bursts of notifications without requests; at checkpoints the real server's last published diagnostics per URI and its answers to definition/references/prepareRename/rename probes at identifier starts of every file are compared with a fresh server that is only handed didOpen with the client's final texts (client texts from an independent UTF-16 model); liveness after every message; synchronisation by request/response order, no timing; non-trivial = every history; distinct by content",
